@@ -547,6 +547,22 @@ pub fn leaf_poll_common(id: NodeId, cx: &mut Context<'_>) -> LeafAct {
     act
 }
 
+/// Drop of a leaf handle: record it; then, if the leaf was drawn to do so, invoke a waker from the destructor
+/// (F14 — e.g. a channel sender whose drop wakes the receiver). Never while unwinding.
+pub fn leaf_dropped(id: NodeId) {
+    let target = with(|w| {
+        w.node_dropped(id);
+        if std::thread::panicking() {
+            None
+        } else {
+            w.drop_wake_target(id).map(|t| (t, w.current_ctx()))
+        }
+    });
+    if let Some((t, ctx)) = target {
+        fire(t, Which::Cur, ctx);
+    }
+}
+
 // ------------------------------------------------------------------ leaf future
 
 pub struct SimFut<O> {
@@ -566,8 +582,7 @@ impl<O> SimFut<O> {
 
 impl<O> Drop for SimFut<O> {
     fn drop(&mut self) {
-        let id = self.node;
-        with(|w| w.node_dropped(id));
+        leaf_dropped(self.node);
     }
 }
 
@@ -603,6 +618,47 @@ impl<O: LeafOut> Future for SimFut<O> {
     }
 }
 
+/// A leaf future handle *without drop glue* (no `Drop` impl, only plain-old-data fields): the code under test
+/// may legitimately skip "dropping" it, and a destructor gated on `mem::needs_drop::<Fut>()` takes its other branch.
+/// Its drops cannot be observed (the node is marked `untracked_drop`); its outputs are tracked as usual.
+pub struct PlainFut<O> {
+    pub node: NodeId,
+    _p: PhantomData<fn() -> O>,
+}
+impl<O> PlainFut<O> {
+    pub fn new(node: NodeId) -> Self {
+        PlainFut { node, _p: PhantomData }
+    }
+}
+impl<O: LeafOut> Future for PlainFut<O> {
+    type Output = O;
+    fn poll(self: Pin<&mut Self>, cx: &mut Context<'_>) -> Poll<O> {
+        let id = self.node;
+        let act = leaf_poll_common(id, cx);
+        let err = match act.step {
+            Some(Step::Ready { err }) => Some(err),
+            Some(Step::Item) | Some(Step::End) => Some(false),
+            _ => None,
+        };
+        match err {
+            None => {
+                with(|w| w.poll_end(id, Res::Pending, None));
+                Poll::Pending
+            }
+            Some(err) => {
+                let mut held = None;
+                let out = with(|w| {
+                    let fallible = w.node(id).fallible;
+                    let (o, res, val) = O::make(w, id, err && fallible, &mut held);
+                    w.poll_end(id, res, val);
+                    o
+                });
+                Poll::Ready(out)
+            }
+        }
+    }
+}
+
 // ------------------------------------------------------------------ leaf stream
 
 pub struct SimStream {
@@ -615,8 +671,7 @@ impl SimStream {
 }
 impl Drop for SimStream {
     fn drop(&mut self) {
-        let id = self.node;
-        with(|w| w.node_dropped(id));
+        leaf_dropped(self.node);
     }
 }
 impl Stream for SimStream {
